@@ -281,9 +281,16 @@ def check_input(ctx, idx, spec, tools, shim, hexe, kill_samples):
     kf = py_kfinal(ops)
     res["kfinal"] = kf
     # -- model: shape + per-prefix verdicts
-    dl = oplog.driver_lines(ops) + ["shape", "prefixes"]
+    dl = oplog.driver_lines(ops) + ["shape", "prefixes", "monitor"]
     mo = ctx.driver(["c14"], "\n".join(dl) + "\n")
-    shape_line, pref_line = mo[-2], mo[-1]
+    shape_line, pref_line, mon_line = mo[-3], mo[-2], mo[-1]
+    mon = mon_line.split()[1] if len(mon_line.split()) > 1 else ""
+    if "X" in mon or len(mon) != len(ops) + 1:
+        # the specification predicate (Spec.Writer.statusOf, with the model of the readers' first stage) evaluated on
+        # the implementation's log: some crash point is neither rejected nor complete
+        k = mon.find("X")
+        res["viol"].append(("spec-monitor:%s" % spec["tool"], "Spec.Writer.statusOf on the real log: crash point %d of %d is neither rejected nor the complete image (%s)" % (
+            k, len(ops), mon), dict(rep, k=k), True))
     model_v = pref_line.split()[1:]
     shape_ok = shape_line.startswith("shape ok")
     if shape_ok:
@@ -491,12 +498,19 @@ def gen_script(rng):
 
 def script_corr(ctx, hscript, n):
     """the real library writers (stub compressor, link-time wrapped pwrite/ftruncate) vs the model, line by line"""
-    scripts = [gen_script(ctx.rng) for _ in range(n)]
+    scripts = []
+    cdir = vlib.CORPUS / "C14"
+    if cdir.exists():
+        for p in sorted(cdir.glob("*.script")):
+            scripts.append(([l for l in p.read_text().splitlines() if l.strip()], True))
+    ncorpus = len(scripts)
+    scripts += [gen_script(ctx.rng) for _ in range(n)]
+    n = len(scripts)
     text = "\n".join("\n".join(L) for L, _ in scripts) + "\n"
     r = vlib.sh([str(hscript), str(ctx.scratch / "script.out"), "script"], input=text, env=ctx.san_env(), timeout=3000)
     real = r.stdout.splitlines()
     model = ctx.driver(["c14"], text)
-    stats = {"scripts": n, "lines": 0, "mismatching_scripts": 0, "ops": 0, "truncates": 0, "shape_checked": 0, "errors_hit": 0}
+    stats = {"scripts": n, "corpus_scripts": ncorpus, "lines": 0, "mismatching_scripts": 0, "ops": 0, "truncates": 0, "shape_checked": 0, "errors_hit": 0}
     bad = []
     if r.returncode != 0:
         bad.append({"what": "harness aborted rc=%d" % r.returncode, "stderr": r.stderr[-1500:]})
